@@ -89,9 +89,13 @@ CLAIMED["C02"] = {
             "kernel's boot time and on boot_time() calls) cannot reach the identity; _pslinux create_time(monotonic=True) "
             "is a function of the stat record alone for arbitrary BOOT_TIME/btime; __eq__/__ne__ compare identities "
             "(unknown start never equals a known one); __hash__ is hash(ident) with a consistent memo; is_running is "
-            "True exactly while the observed owner of the PID is the very same process and False ever after.",
+            "True exactly while the observed owner of the PID is the very same process and False ever after; the "
+            "front-end create_time() returns the epoch value and leaves the identity untouched (a start of 0 ticks "
+            "included); _send_signal on the OpenBSD flavour does not latch a still-listed zombie as gone. Bounded: "
+            "is_running() along process-table histories, and ==/hash/is_running() across a wall-clock step under scripts "
+            "of other psutil calls before and after the step.",
     "note": "process-table oracle and stat grammar assumed; same-tick PID reuse not covered (documented assumption of "
-            "the code); Linux branch.",
+            "the code); Linux branch except for the OpenBSD zombie contract.",
     "ref": "DESIGN.md section 5 (C02)",
 }
 
